@@ -22,6 +22,9 @@ type Stress struct {
 	Plan   [][]Action    `json:"plan"`   // one list of push/http actions per pusher goroutine
 	Script []fakech.Step `json:"script"` // outcomes of the first INSERTs; afterwards everything succeeds
 	GateOK []bool        `json:"gate_ok"`
+	// GateErr are the error classes (fakech.ErrClasses) of gated INSERTs released with an
+	// error, used cyclically; empty = plain errors.
+	GateErr []string `json:"gate_err,omitempty"`
 	Refuse int           `json:"refuse"` // reconnects refused at the first error
 }
 
@@ -40,7 +43,11 @@ func GenStress(rt *rapid.T, maxPushers, maxPer int) Stress {
 		for i := 0; i < n; i++ {
 			if rapid.IntRange(0, 9).Draw(rt, "http") < 4 {
 				plan = append(plan, Action{Op: "http", Proto: rapid.SampledFrom(HTTPKinds).Draw(rt, "proto"),
-					Rows: rapid.IntRange(1, 8).Draw(rt, "rows"), Streams: rapid.IntRange(1, 3).Draw(rt, "streams")})
+					Rows: rapid.IntRange(1, 8).Draw(rt, "rows"), Streams: rapid.IntRange(1, 3).Draw(rt, "streams"),
+					Big: rapid.IntRange(0, 15).Draw(rt, "big") == 8})
+				if plan[len(plan)-1].Proto == "profile" {
+					plan[len(plan)-1].Big = false // region of finding C16-profile-over-1MiB
+				}
 			} else {
 				a := Action{Op: "push", Kind: rapid.SampledFrom(Kinds).Draw(rt, "kind"),
 					Rows: rapid.SampledFrom([]int{0, 1, 2, 3, 7, 30}).Draw(rt, "rows"), Wide: rapid.SampledFrom([]int{0, 9}).Draw(rt, "wide")}
@@ -56,7 +63,8 @@ func GenStress(rt *rapid.T, maxPushers, maxPer int) Stress {
 	for i := 0; i < ns; i++ {
 		switch rapid.IntRange(0, 9).Draw(rt, "step") {
 		case 0, 1, 2:
-			s.Script = append(s.Script, fakech.Step{Kind: fakech.Error, Err: fmt.Sprintf("scripted error %d", i)})
+			s.Script = append(s.Script, fakech.Step{Kind: fakech.Error, Err: fmt.Sprintf("scripted error %d", i),
+				Class: rapid.SampledFrom(fakech.ErrClasses).Draw(rt, "class")})
 		case 3, 4, 5:
 			s.Script = append(s.Script, fakech.Step{Kind: fakech.Gate})
 		default:
@@ -66,6 +74,7 @@ func GenStress(rt *rapid.T, maxPushers, maxPer int) Stress {
 	ng := rapid.IntRange(1, 6).Draw(rt, "gates")
 	for i := 0; i < ng; i++ {
 		s.GateOK = append(s.GateOK, rapid.Bool().Draw(rt, "gate_ok"))
+		s.GateErr = append(s.GateErr, rapid.SampledFrom(fakech.ErrClasses).Draw(rt, "gate_err"))
 	}
 	if rapid.IntRange(0, 11).Draw(rt, "refuse") == 0 {
 		s.Refuse = 1
@@ -79,7 +88,7 @@ func RunStress(s Stress) *Trace {
 	defer hs.Close()
 	tr := &Trace{H: History{Cfg: s.Cfg}, Stopped: map[Kind]bool{}}
 	hs.DB.Push(s.Script...)
-	hs.DB.RefuseConnect(s.Refuse)
+	hs.DB.RefuseConnectWith(s.Refuse, "refused")
 
 	stopRel := make(chan struct{})
 	var relWG sync.WaitGroup
@@ -100,7 +109,11 @@ func RunStress(s Stress) *Trace {
 				i := atomic.AddInt64(&gateN, 1) - 1
 				var err error
 				if len(s.GateOK) > 0 && !s.GateOK[int(i)%len(s.GateOK)] {
-					err = fmt.Errorf("gated INSERT #%d released with an error", c.Seq)
+					class := ""
+					if len(s.GateErr) > 0 {
+						class = s.GateErr[int(i)%len(s.GateErr)]
+					}
+					err = fakech.ErrorOf(class, c.Seq)
 				}
 				hs.DB.Release(c, err)
 			}
